@@ -82,14 +82,15 @@ def value_op(rng, x):
 
 def gen(rng, tier):
     quick = (tier == 'quick')
-    ncases = 130 if quick else 1500
+    ncases = 130 if quick else 700
     cases = []
     for ci in range(ncases):
         tags = set(); ops = []
         if quick:
             lgk = rng.choice([5, 5, 5, 6, 6, 7]) if ci % 30 else 12
         else:
-            lgk = rng.choice([5, 5, 6, 6, 7, 8, 9, 10, 11, 12, 13, 14])
+            # large tables are slow in the list-based model runner: lg_k 12..14 once in 40 cases (the theorems cover every lg_k)
+            lgk = rng.choice([5, 5, 6, 6, 7, 7, 8, 8, 9, 10, 11]) if ci % 40 else rng.choice([12, 13, 14])
         k = 1 << lgk
         rf = rng.randrange(4)
         pk = rng.random()
